@@ -43,6 +43,13 @@ impl<W: VSink> VCompressorWriter<W> {
             r is Ok ==> final(self).synced@ == final(self).fed@ && final(self).inner.inner.flushed() == final(self).inner.inner.log().len(),
     { unimplemented!() }
 
+    /// get_mut : the counting writer below brotli (nothing is emitted, brotli's own buffers are untouched)
+    pub fn get_mut(&mut self) -> (r: &mut WriterWithCount<W>)
+        ensures *r == old(self).inner, final(self).inner == *final(r),
+            final(self).base == old(self).base, final(self).fed == old(self).fed, final(self).synced == old(self).synced,
+            final(self).level == old(self).level, final(self).lgwin == old(self).lgwin,
+    { &mut self.inner }
+
     /// into_inner : finishes the brotli stream (emits its last bytes) and gives the counting writer back
     #[verifier::external_body]
     pub fn into_inner(self) -> (r: WriterWithCount<W>)
